@@ -10,6 +10,7 @@ A5 effect summaries      Facts.effects()
 A6 who-may-call          Facts.instance graph helpers
 """
 import json
+import os
 import re
 import sys
 from collections import defaultdict, deque
@@ -721,6 +722,11 @@ class Facts:
         for nd in self.nodes:
             self._by_def[nd["def"]].append(nd["id"])
         self._effects = None
+        # A9: `with_x(|x| ..)` helpers are inlined into their callers (closure body included) before any rule looks
+        self.inlined = []
+        if not os.environ.get("VERIF_NO_INLINE"):
+            import inline
+            self.inlined = inline.run(self)
 
     # ---- lookup ------------------------------------------------------------------------------
     def fn(self, name):
